@@ -127,8 +127,8 @@ class World:
             e = self.h[hname]
             if e.tainted or hname in self.changed or hname in self.created:
                 continue
-            self.check_value(hname, {"C13"}, "C13.bystander_or_input_changed",
-                             what=f"step {self.step_no} ({self.cur_op}) was not documented to change")
+            self.check_value(hname, {"C13"} | ({"C14"} if e.meta.get("loaded") else set()), "C13.bystander_or_input_changed",
+                             what=f"step {self.step_no} ({self.cur_op}) was not documented to change" + (" the RELOADED object" if e.meta.get("loaded") else ""))
 
     def check_sector_and_labels(self, handle):
         e = self.h[handle]
@@ -308,6 +308,30 @@ def op_mpo(w, s):
     dm = dense.dense_of(mpo)
     if rmax > 0 and float(np.abs(ref - ref.conj().T).max()) <= 1e-13 * rmax and float(np.abs(dm - dm.conj().T).max()) > 1e-9 * rmax:
         raise V({"C01"}, "C01.mpo.hermiticity", "Hermitian term list gave a non-Hermitian MPO")
+    return "done"
+
+
+@op("mpo_shared")
+def op_mpo_shared(w, s):
+    """The SAME term objects (built once) are used to construct operators for two models that group the degrees of freedom into
+    sites differently: nothing may be remembered on the term objects from the first construction."""
+    terms = [gm.build_op(t) for t in s["terms"]]
+    if s["mid"] >= len(w.models) or s["twin"] >= len(w.models):
+        return "skipped"
+    order = [s["mid"], s["twin"]] if s.get("order", "ab") == "ab" else [s["twin"], s["mid"]]
+    for mid, out in zip(order, s["outs"]):
+        model = w.models[mid]
+        ref = dense.dense_op(model, terms)
+        if float(np.abs(ref).max()) < 1e-14:
+            return "skipped"
+        try:
+            mpo = Mpo(model, terms, algo=s.get("algo", "qr"))
+        except Exception as ex:
+            raise V({"C01"}, "C01.mpo_shared.raised", f"Mpo with shared term objects on model {mid}: {type(ex).__name__}: {ex}", sig=f"C01.mpo_shared.raised:{type(ex).__name__}")
+        w.put(out, "mpo", mpo, ref, mid, {"terms": s["terms"], "offset": 0.0, "symbolic": True})
+        w.check_value(out, {"C01"}, "C01.mpo_shared.dense", what=f"Mpo(algo={s.get('algo')}) from term objects shared with another model",
+                      extra_scale=float(sum(abs(t.factor) for t in terms)))
+    w.stats.probes["mpo_shared_pairs"] += 1
     return "done"
 
 
@@ -1130,6 +1154,33 @@ def p_mpo(w, rnd):
             "offset": rnd.choice([0.0, 0.0, round(rnd.uniform(-1, 1), 3)]) if charge == [0] * spec["qn_size"] else 0.0, "out": w.new_handle()}
 
 
+@prop("mpo_shared")
+def p_mpo_shared(w, rnd):
+    twins = [(sp["twin_of"], i) for i, sp in enumerate(w.header["models"]) if "twin_of" in sp]
+    if not twins:
+        return None
+    a, b = rnd.choice(twins)
+    spa, spb = w.model_specs[a], w.model_specs[b]
+    pair = spb["pair"]
+    common = [st for st in spa["sites"] if st.get("dof") not in pair]
+    terms = []
+    for _ in range(rnd.randint(1, 4)):
+        syms, dofs, qns = [], [], []
+        if rnd.random() < 0.8:
+            x, y = rnd.choice(pair), rnd.choice(pair)
+            syms.append(r"a^\dagger a"); dofs += [x, y]; qns += [[1], [-1]]
+        for st in rnd.sample(common, min(len(common), rnd.randint(0, 2))):
+            sy, d, q, _h = gm.elementary(st, rnd, 1, neutral_only=True)
+            syms.append(sy); dofs += [list(z) if isinstance(z, tuple) else z for z in d]; qns += q
+        if not syms:
+            continue
+        terms.append({"sym": " ".join(syms), "dofs": dofs, "factor": [round(rnd.uniform(-1, 1), 4) or 0.5, 0.0], "qn": qns})
+    if not terms:
+        return None
+    return {"op": "mpo_shared", "mid": a, "twin": b, "terms": terms, "order": rnd.choice(["ab", "ba"]), "algo": rnd.choice(["qr", "Hopcroft-Karp", "Hungarian"]),
+            "outs": [w.new_handle(), w.new_handle()]}
+
+
 @prop("swap")
 def p_swap(w, rnd):
     hs = w.handles("mpo", pred=lambda e: e.meta.get("symbolic") and len(e.obj) >= 2)
@@ -1426,6 +1477,17 @@ def gen_header(rnd, nmodels=(1, 2), flavours=None, maxdim=160, nmax=5, nmin=2):
         spec = gm.gen_sites(rnd, flavour=rnd.choice(flavours) if flavours else None, nmin=nmin, nmax=nmax, maxdim=maxdim)
         spec["ham"] = gm.gen_hamiltonian(rnd, spec["sites"], spec["qn_size"])
         models.append(spec)
+    # "twin" models: the same degrees of freedom grouped into sites differently (two simple-electron sites merged into one
+    # multi-electron site).  Term objects built once are used for both (mpo_shared).
+    for idx, spec in enumerate(list(models)):
+        el = [i for i, st in enumerate(spec["sites"]) if st["type"] == "elec" and "qn" not in st]
+        if spec["qn_size"] == 1 and len(el) >= 2 and rnd.random() < 0.5:
+            i, j = sorted(rnd.sample(el, 2))
+            sites = [dict(x) for k, x in enumerate(spec["sites"]) if k != j]
+            sites[i] = {"type": "multivac", "dofs": [spec["sites"][i]["dof"], spec["sites"][j]["dof"]]}
+            twin = {"flavour": spec["flavour"], "qn_size": 1, "sites": sites, "twin_of": idx, "pair": [spec["sites"][i]["dof"], spec["sites"][j]["dof"]]}
+            twin["ham"] = gm.gen_hamiltonian(rnd, sites, 1)
+            models.append(twin)
     return {"models": models, "knobs": {}}
 
 
